@@ -125,7 +125,7 @@ def chkWait (o : Obs) : Ev → Bool
   | .sdret _ => o.live.isEmpty
   | _ => true
 
-/-- The same for `Run` (this is the part the code does not satisfy, see `C20_statement`). -/
+/-- The same for `Run`. -/
 def chkRunWait (o : Obs) : Ev → Bool
   | .runret _ => o.live.isEmpty
   | _ => true
@@ -165,8 +165,7 @@ def noAddOk (tr : List Ev) : Bool := holds chkNoAdd tr
 def refusedOk (tr : List Ev) : Bool := holds chkRefused tr
 def noCrashOk (tr : List Ev) : Bool := holds chkNoCrash tr
 
-/-- Hypothesis under which `Run` waits for everything: no worker is accepted after a `Run` copied the
-WaitGroups. -/
+/-- (About `Run` before its repair.)  No worker is accepted after a `Run` copied the WaitGroups. -/
 def noLateAdd (tr : List Ev) : Bool := !(obsOf tr).lateAdd
 
 /-- The clauses a trace violates, in a fixed order (what the driver prints). -/
@@ -184,9 +183,5 @@ def showVerdict : List String → String
   | l => "reject " ++ ",".intercalate l
 
 def verdict (tr : List Ev) : String := showVerdict (failed tr)
-
-/-- The verdict over the clauses that are theorems of the model (everything but `runwait`, which the code
-does not satisfy: `C20_statement`, `C20_run_wait_witness`). -/
-def verdictProved (tr : List Ev) : String := showVerdict ((failed tr).filter (· != "runwait"))
 
 end Hive.Daemon
